@@ -108,20 +108,24 @@ def textureWf (texHeader : Bytes) (mips : List (List Block)) : Bool :=
 
 /-! ### model entries -/
 
-/-- the eight block runs of a model entry (edge geometry is not covered: see C02 notes) -/
+/-- the eleven block runs of a model entry, in file order: stack, runtime, then per LOD the vertex,
+edge-geometry and index runs -/
 structure ModelSections where
   stack : List Block
   runtime : List Block
   v0 : List Block
+  e0 : List Block
   i0 : List Block
   v1 : List Block
+  e1 : List Block
   i1 : List Block
   v2 : List Block
+  e2 : List Block
   i2 : List Block
 deriving Repr
 
 def ModelSections.all (s : ModelSections) : List Block :=
-  s.stack ++ s.runtime ++ s.v0 ++ s.i0 ++ s.v1 ++ s.i1 ++ s.v2 ++ s.i2
+  s.stack ++ s.runtime ++ s.v0 ++ s.e0 ++ s.i0 ++ s.v1 ++ s.e1 ++ s.i1 ++ s.v2 ++ s.e2 ++ s.i2
 
 structure ModelMeta where
   version : UInt32
@@ -136,7 +140,7 @@ deriving Repr, DecidableEq
 edge[3], index[3] -/
 def mms (put : Nat → Bytes) (f : List Block → Nat) (s : ModelSections) : Bytes :=
   put (f s.stack) ++ put (f s.runtime) ++ put (f s.v0) ++ put (f s.v1) ++ put (f s.v2) ++
-  put 0 ++ put 0 ++ put 0 ++ put (f s.i0) ++ put (f s.i1) ++ put (f s.i2)
+  put (f s.e0) ++ put (f s.e1) ++ put (f s.e2) ++ put (f s.i0) ++ put (f s.i1) ++ put (f s.i2)
 
 def put32 (n : Nat) : Bytes := putU32le n.toUInt32
 def put16 (n : Nat) : Bytes := putU16le n.toUInt16
@@ -149,24 +153,30 @@ def modelOffsets (s : ModelSections) : Bytes :=
   let o1 := encLen s.stack
   let o2 := o1 + encLen s.runtime
   let o3 := o2 + encLen s.v0
-  let o4 := o3 + encLen s.i0
-  let o5 := o4 + encLen s.v1
-  let o6 := o5 + encLen s.i1
-  let o7 := o6 + encLen s.v2
-  put32 0 ++ put32 o1 ++ put32 o2 ++ put32 o4 ++ put32 o6 ++
-  put32 0 ++ put32 0 ++ put32 0 ++ put32 o3 ++ put32 o5 ++ put32 o7
+  let o4 := o3 + encLen s.e0
+  let o5 := o4 + encLen s.i0
+  let o6 := o5 + encLen s.v1
+  let o7 := o6 + encLen s.e1
+  let o8 := o7 + encLen s.i1
+  let o9 := o8 + encLen s.v2
+  let o10 := o9 + encLen s.e2
+  put32 0 ++ put32 o1 ++ put32 o2 ++ put32 o5 ++ put32 o8 ++
+  put32 o3 ++ put32 o6 ++ put32 o9 ++ put32 o4 ++ put32 o7 ++ put32 o10
 
 /-- index of each section's first block -/
 def modelIndices (s : ModelSections) : Bytes :=
   let n1 := s.stack.length
   let n2 := n1 + s.runtime.length
   let n3 := n2 + s.v0.length
-  let n4 := n3 + s.i0.length
-  let n5 := n4 + s.v1.length
-  let n6 := n5 + s.i1.length
-  let n7 := n6 + s.v2.length
-  put16 0 ++ put16 n1 ++ put16 n2 ++ put16 n4 ++ put16 n6 ++
-  put16 0 ++ put16 0 ++ put16 0 ++ put16 n3 ++ put16 n5 ++ put16 n7
+  let n4 := n3 + s.e0.length
+  let n5 := n4 + s.i0.length
+  let n6 := n5 + s.v1.length
+  let n7 := n6 + s.e1.length
+  let n8 := n7 + s.i1.length
+  let n9 := n8 + s.v2.length
+  let n10 := n9 + s.e2.length
+  put16 0 ++ put16 n1 ++ put16 n2 ++ put16 n5 ++ put16 n8 ++
+  put16 n3 ++ put16 n6 ++ put16 n9 ++ put16 n4 ++ put16 n7 ++ put16 n10
 
 def boolByte (b : Bool) : UInt8 := if b then 1 else 0
 
@@ -211,21 +221,26 @@ def encodeMdlHeader (h : MdlHeader) : Bytes :=
 /-- where a section starts in the reassembled file: its position if it has blocks, else 0 -/
 def secOffset (sec : List Block) (pos : Nat) : Nat := if sec.isEmpty then 0 else pos
 
-/-- the header that describes the reassembled file `header ++ stack ++ runtime ++ v0 ++ i0 ++ …` -/
+/-- the header that describes the reassembled file
+`header ++ stack ++ runtime ++ v0 ++ e0 ++ i0 ++ v1 ++ e1 ++ i1 ++ v2 ++ e2 ++ i2` (the `.mdl`
+header has no fields for the edge-geometry runs; they sit between the vertex and index data) -/
 def mdlHeaderOf (m : ModelMeta) (s : ModelSections) : MdlHeader :=
   let p0 := 68 + conLen s.stack + conLen s.runtime
   let p1 := p0 + conLen s.v0
-  let p2 := p1 + conLen s.i0
-  let p3 := p2 + conLen s.v1
-  let p4 := p3 + conLen s.i1
-  let p5 := p4 + conLen s.v2
+  let p2 := p1 + conLen s.e0
+  let p3 := p2 + conLen s.i0
+  let p4 := p3 + conLen s.v1
+  let p5 := p4 + conLen s.e1
+  let p6 := p5 + conLen s.i1
+  let p7 := p6 + conLen s.v2
+  let p8 := p7 + conLen s.e2
   { version := m.version
     stackSize := conLen s.stack
     runtimeSize := conLen s.runtime
     vertexDeclarationCount := m.vertexDeclarationNum
     materialCount := m.materialNum
-    vertexOffsets := (secOffset s.v0 p0, secOffset s.v1 p2, secOffset s.v2 p4)
-    indexOffsets := (secOffset s.i0 p1, secOffset s.i1 p3, secOffset s.i2 p5)
+    vertexOffsets := (secOffset s.v0 p0, secOffset s.v1 p3, secOffset s.v2 p6)
+    indexOffsets := (secOffset s.i0 p2, secOffset s.i1 p5, secOffset s.i2 p8)
     vertexBufferSize := (conLen s.v0, conLen s.v1, conLen s.v2)
     indexBufferSize := (conLen s.i0, conLen s.i1, conLen s.i2)
     lodCount := m.numLods
